@@ -153,6 +153,17 @@ def run(ctx):
             first_samples.append({"program": pid, "module": v["module"], "verify": ver, "lockstep": lock})
     for s in first_samples:
         ctx.sample(s)
+    # the string table the STRING / BUILD_IN / FFI operands index into (reference integrity needs
+    # strtab_add_string to return the index under which strtab_to_array later finds the same string,
+    # across collisions and growth): coq/Hash/StrTabStatements.v + correspondence with back/strtab.c
+    try:
+        from checks.parts import hashtab
+        st = hashtab.run_strtab(ctx)
+        ctx.notes["strtab"] = {k: v for k, v in st.items() if k in ("evaluations", "nontrivial", "size_used_by_module_new", "rule", "cases", "operations")}
+    except common.BuildError:
+        raise
+    except Exception as ex:
+        ctx.correspondence_broken("strtab-part-crashed", repr(ex)[:400])
     ctx.coverage["distinct_nontrivial"] = len(shapes)
     ctx.coverage["rule"] = ("every program of the fixed corpus (/repo/sample/*.nev + /verif/corpus/programs/*.nev) is compiled by "
                             "the tree's compiler; the extracted certificate checker decides each module (all static paths, "
